@@ -1,6 +1,9 @@
 """C11 — global filters keep exactly the rows that satisfy them, on every framework.
 
 Spec: coq/Spec/Filter.v, models: coq/Model/{FilterPyDict,FilterArrow,TimeFilter}.v, theorems: coq/Props/C11.v.
+The path from GlobalFilter.add_filter to the column an engine reads (renamed filter features: sub-columns of multi-column
+features, groups overriding set_feature_name, one filter matched by two groups, filter features with domains): harness/c11_path.py,
+coq/{Spec,Model}/FilterPath.v, coq/Props/C11path.v.
 T2 (correspondence, every comparison evaluated by vm_compute over the definitions the theorems are about):
   dispatch : BaseFilterEngine.do_filter, every FilterType member + custom strings -> do_* method   (exhaustive)
   engine   : <Engine>.apply_filters(data, FeatureSet) on generated tables / feature sets / <= 3 filters
@@ -30,11 +33,12 @@ from lib.vlib import cq_list, cq_str, cq_z, cq_bool
 
 LEVEL = "proof"
 logging.disable(logging.CRITICAL)
-REQ = ["MV.Spec.Filter", "MV.Spec.FilterPlan", "MV.Model.FilterPyDict", "MV.Model.FilterArrow", "MV.Model.TimeFilter"]
+REQ = ["MV.Spec.Filter", "MV.Spec.FilterPlan", "MV.Spec.FilterPath", "MV.Model.FilterPyDict", "MV.Model.FilterArrow", "MV.Model.TimeFilter",
+       "MV.Model.FilterPath"]
 
 EXTRA = r"""
 Open Scope Z_scope.
-Inductive oerr := OE (e : err) | OKey | OEmpty | OArrowType | OOther.
+Inductive oerr := OE (e : err) | OKey | OEmpty | OArrowType | ODomain | OOther.
 Inductive obs := OOk (ids : list Z) | OErr (e : oerr).
 Definition id_of (r : row) : Z := match get r "id" with VInt z => z | _ => (-1) end.
 Definition ids_of (t : table) : list Z := map id_of t.
@@ -211,7 +215,8 @@ def cq_obs(o: Any) -> str:
 
 
 def ecase_term(c: Dict[str, Any]) -> str:
-    return (f"(({cq_list(cq_str(n) for n in c['names'])}, {cq_list(cq_filter(f) for f in c['filters'])}, "
+    names = c.get("names_term") or cq_list(cq_str(n) for n in c["names"])      # names_term: a Coq expression (path families)
+    return (f"(({names}, {cq_list(cq_filter(f) for f in c['filters'])}, "
             f"{cq_table(c['table'])}), {cq_obs(c['obs'])})")
 
 
@@ -1356,6 +1361,8 @@ def run(rep: vlib.Reporter, tier: str, seed: int) -> None:
     big = tier == "thorough"
     pr = vlib.build_props("C11")
     rep.proof(pr)
+    pr_path = vlib.build_props("C11path")      # the path add_filter -> identity_matched_filters -> rename -> gate -> column read
+    rep.proof(pr_path)
     rep.coverage["trusted_base"] += [
         "hand-written models Model/FilterPyDict.v (python_dict_filter_engine.py, BaseFilterEngine.do_filter / apply_single_filters), "
         "Model/FilterArrow.v (PyArrow do_regex_filter only), Model/TimeFilter.v (_check_and_convert_time_info); tied by T2 "
@@ -1370,7 +1377,13 @@ def run(rep: vlib.Reporter, tier: str, seed: int) -> None:
         "plan exported from the real prepare is checked step by step with Spec/FilterPlan.glue_okb (sufficiency proved: "
         "C11_plan_glue_sufficient) and the rows returned by run_all are judged by a pure-Python predicate and by Spec/Filter.expected; "
         "the plan exporter (FeatureGroupStep.features / .filters) is ordinary Python",
-        "filter features with options of their own are covered by one committed witness only (harness/c11_sub.py, fresh interpreters)",
+        "filter features with options of their own are covered by one committed witness only (harness/c11_sub.py, fresh interpreters) "
+        "and at unit level (identity_matched_filters vs Model/FilterPath.identity_matched)",
+        "hand-written model Model/FilterPath.v (identity_matched_filters, unify_options, Engine._add_filter_feature, the gate of "
+        "apply_single_filters, the column the engines read), tied by T2: recording wrappers around identity_matched_filters / "
+        "apply_single_filters / do_filter and proxies around the data handed to do_filter (harness/c11_path.py, ordinary Python); "
+        "its planned_names assumes feature sets are split by group options (planner not modelled); class-name based rules of "
+        "match_feature_group_criteria are not modelled; parameter equality of two filters is structural (generators avoid 2 vs 2.0)",
         "canonicalisation: rows identified by an integer id column; returned cells compared with the input cells (NaN/None = null)"]
     found = False
 
@@ -1595,6 +1608,10 @@ def run(rep: vlib.Reporter, tier: str, seed: int) -> None:
         found = True
     rep.add("multi_feature_e2e", m_cnt)
 
+    # ---- the path add_filter -> engine column: renamed filter features (harness/c11_path.py) ----
+    from harness import c11_path
+    found = c11_path.run(rep, rng, big) or found
+
     # ---- witness: a filter feature with options of its own (outcome depends on set order; fresh interpreters) ----
     ow = own_options_witness()
     rep.count(len(ow["own"]) + len(ow["plain"]))
@@ -1686,7 +1703,14 @@ def run(rep: vlib.Reporter, tier: str, seed: int) -> None:
         rep.finding("witness-list", f"add_filter with a list-valued parameter: {w['list']}", w)
         found = True
 
-    rep.add("rule", "multi-feature end to end (every run): 8 option schemes (none, identical, different keys, same key / different value, "
+    rep.add("rule", "path families (every run; harness/c11_path.py): A multi-column features base~0.. with the base listed / not listed in "
+                    "feature_names_supported, filters on one / several sub-columns, on a single-column feature, on unexposed columns, pairs "
+                    "with equal type and parameter; B groups overriding set_feature_name (to one name / suffix, renamed column present / absent); "
+                    "C one filter matched by two groups renaming differently (also two frameworks); D filter features with a domain; three "
+                    "frameworks each; all six filter types with parameters drawn from the cells present; non-trivial = a proper non-empty "
+                    "subset of the rows comes back. unit level: identity_matched_filters with own options / context options / domains / "
+                    "frameworks / sub-column names; non-trivial = something matched. "
+                    "multi-feature end to end (every run): 8 option schemes (none, identical, different keys, same key / different value, "
                     "with / without, context only, context vs none, same group + different context) x 5 framework modes (pa, py, pandas "
                     "default index, pandas object index, one framework per group) x 2 rounds, 2-3 requested features of the same or of "
                     "different groups, 1-2 global filters the first of which keeps a proper non-empty part of the rows; judged per "
@@ -1708,6 +1732,9 @@ def run(rep: vlib.Reporter, tier: str, seed: int) -> None:
     if not pr.ok and not found:
         rep.finding("proof-broken", "Props/C11.v no longer checks",
                     {"failed_files": pr.failed_files, "forbidden": pr.forbidden, "log_tail": pr.log[-3000:]}, found_input=False)
+    if not pr_path.ok and not found:
+        rep.finding("proof-broken-path", "Props/C11path.v no longer checks",
+                    {"failed_files": pr_path.failed_files, "forbidden": pr_path.forbidden, "log_tail": pr_path.log[-3000:]}, found_input=False)
 
 
 def replay(path: str) -> int:
@@ -1733,6 +1760,9 @@ def replay(path: str) -> int:
         print(" now: error", now["error"], "rows per requested feature", now["ids"], " recorded:", r.get("result", {}).get("error"), r.get("result", {}).get("ids"))
         for st in now["plan"] or []:
             print("   plan step", st)
+    elif k in ("path", "match"):
+        from harness import c11_path
+        c11_path.replay(r)
     elif k == "witness_own_options":
         print("now:", own_options_witness(), "recorded:", r)
     elif k == "time":
